@@ -46,6 +46,9 @@ class HarnessOnlyError(Exception):
 
 
 FAULTS[8] = HarnessOnlyError
+# a StopIteration escaping a call (a bare next() on an empty iterator): inside a pool worker it would end the chunk's
+# list(map(...)) silently; parallel_function reports it as RuntimeError in every mode (repair of finding C18-K3)
+FAULTS[9] = StopIteration
 
 KNOWN_HANG = "C18-K1"   # id in known_findings.json: a dying worker process without timeout hangs parallel_function
 # C18-K2 (class cpus1_shortcut_ignores_timeout: the cpus == 1 shortcut of parallel_function ignored the timeout) is
@@ -257,6 +260,8 @@ def _config():
 def _outcome(fn):
     try:
         return [0, fn()]
+    except StopIteration:
+        return [1, E_RUNTIME]           # the kind parallel_function reports for it, see FAULTS[9]
     except Exception as exc:  # pylint: disable=broad-except
         return [1, err_code(exc)]
 
